@@ -224,6 +224,7 @@ def note_tags(beh):
 
 # ------------------------------------------------------------------------------------------------------ C18 argv
 import shlex  # noqa: E402
+import time  # noqa: E402
 import zlib  # noqa: E402
 import shutil  # noqa: E402
 import stat  # noqa: E402
@@ -690,3 +691,247 @@ def execute_aliastok(case, salt, scratch, env_holder):
             git_ok = True
             git_toks = [[inv.get(ch, "?") for ch in t] for t in argv]
     return {"aiOk": ai_ok, "aiToks": ai_toks, "gitOk": git_ok, "gitToks": git_toks}, {"value": value, "git_stderr": err[-300:]}
+
+
+# --------------------------------------------------------------------------------------------- C20 hook ingestion
+ING_PRESETS = ["claude", "codex", "gemini", "continue-cli", "cursor", "github-copilot", "amp", "agent-v1", "droid",
+               "opencode", "ai_tab", "nosuchpreset"]
+ING_SHAPES = ["valid", "empty", "notjson", "truncated", "null", "array", "number", "string", "wrongtypes", "missing",
+              "huge", "deep", "nul", "stdin_empty", "stdin_garbage", "noarg", "binarybytes"]
+ING_LAYOUTS = ["single", "nested", "multi", "bare", "none"]
+ING_LOCS = ["in1rel", "in1abs", "in2", "outside", "dotdot", "missing", "dir", "binary", "otherrepo", "nofiles", "dirty_outside"]
+
+
+class IngestEnv:
+    def __init__(self, scratch, layout):
+        self.dir = tempfile.mkdtemp(prefix="ing-", dir=scratch)
+        self.home = os.path.join(self.dir, "home")
+        os.makedirs(self.home)
+        self.env = dict(os.environ)
+        self.env.update({"HOME": self.home, "GIT_CONFIG_NOSYSTEM": "1", "GIT_TERMINAL_PROMPT": "0", "LC_ALL": "C.UTF-8",
+                         "GIT_AI_TEST_DB_PATH": os.path.join(self.dir, "db"), "GIT_AI_DEBUG": "0",
+                         "GIT_AI_TEST_CONFIG_PATCH": json.dumps({"prompt_storage": "notes",
+                                                                 "exclude_prompts_in_repositories": []})})
+        for k in ("GIT_DIR", "GIT_WORK_TREE", "GIT_INDEX_FILE"):
+            self.env.pop(k, None)
+        self.root = os.path.join(self.dir, "ws")
+        os.makedirs(self.root)
+        self.repos = {}
+        if layout in ("single", "nested"):
+            self.repos["R1"] = self.mkrepo(self.root, "f1.txt")
+            if layout == "nested":
+                self.repos["R2"] = self.mkrepo(os.path.join(self.root, "inner"), "f2.txt")
+        elif layout == "multi":
+            self.repos["R1"] = self.mkrepo(os.path.join(self.root, "a"), "f1.txt")
+            self.repos["R2"] = self.mkrepo(os.path.join(self.root, "b"), "f2.txt")
+        elif layout == "bare":
+            subprocess.run(["/usr/bin/git", "init", "-q", "--bare", self.root], env=self.env, check=True)
+        self.repos["R3"] = self.mkrepo(os.path.join(self.dir, "other"), "f3.txt")
+        self.outside = os.path.join(self.dir, "out")
+        os.makedirs(self.outside)
+        with open(os.path.join(self.outside, "o9.txt"), "w") as fh:
+            fh.write("outside\n")
+        self.layout = layout
+
+    def mkrepo(self, path, fname):
+        os.makedirs(path, exist_ok=True)
+        for a in (["init", "-q", "-b", "main", "."], ["config", "user.email", "dev@example.invalid"],
+                  ["config", "user.name", "Dev"]):
+            subprocess.run(["/usr/bin/git"] + a, cwd=path, env=self.env, check=True, stdout=subprocess.PIPE,
+                           stderr=subprocess.PIPE)
+        with open(os.path.join(path, fname), "w") as fh:
+            fh.write("base line\n")
+        os.makedirs(os.path.join(path, "adir"), exist_ok=True)
+        with open(os.path.join(path, "adir", "keep.txt"), "w") as fh:
+            fh.write("x\n")
+        with open(os.path.join(path, "bin.dat"), "wb") as fh:
+            fh.write(bytes(range(256)) * 4)
+        subprocess.run(["/usr/bin/git", "add", "-A"], cwd=path, env=self.env, check=True)
+        subprocess.run(["/usr/bin/git", "commit", "-q", "-m", "base"], cwd=path, env=self.env, check=True)
+        return path
+
+    def target(self, loc):
+        """-> (path string to put in the payload, absolute path of the file, basename to look for)"""
+        r1 = self.repos.get("R1", self.root)
+        r2 = self.repos.get("R2", r1)
+        if loc == "in1rel":
+            p = os.path.join(r1, "f1.txt")
+            return os.path.relpath(p, self.root), p, "f1.txt"
+        if loc == "in1abs":
+            p = os.path.join(r1, "f1.txt")
+            return p, p, "f1.txt"
+        if loc == "in2":
+            name = "f2.txt" if "R2" in self.repos else "f1.txt"
+            p = os.path.join(r2, name)
+            return p, p, name
+        if loc in ("outside", "dirty_outside"):
+            p = os.path.join(self.outside, "o9.txt")
+            return p, p, "o9.txt"
+        if loc == "dotdot":
+            p = os.path.join(self.outside, "o9.txt")
+            return os.path.relpath(p, self.root), p, "o9.txt"
+        if loc == "missing":
+            p = os.path.join(r1, "nothere7.txt")
+            return p, None, "nothere7.txt"
+        if loc == "dir":
+            p = os.path.join(r1, "adir")
+            return p, None, "adir"
+        if loc == "binary":
+            p = os.path.join(r1, "bin.dat")
+            return p, p, "bin.dat"
+        if loc == "otherrepo":
+            p = os.path.join(self.repos["R3"], "f3.txt")
+            return p, p, "f3.txt"
+        return None, None, "zzzz-none"
+
+    def recorded(self, base):
+        roles = []
+        readable = True
+        for role, path in self.repos.items():
+            gd = os.path.join(path, ".git")
+            hit = False
+            for dirpath, _, files in os.walk(os.path.join(gd, "ai")):
+                for fn in files:
+                    if fn != "checkpoints.jsonl":
+                        continue
+                    for ln in open(os.path.join(dirpath, fn), errors="replace"):
+                        if not ln.strip():
+                            continue
+                        try:
+                            ck = json.loads(ln)
+                        except ValueError:
+                            readable = False
+                            continue
+                        for e in ck.get("entries", []):
+                            if str(e.get("file", "")).endswith(base):
+                                hit = True
+            if hit:
+                roles.append(role)
+        return sorted(roles), readable
+
+    def cleanup(self):
+        shutil.rmtree(self.dir, ignore_errors=True)
+
+
+def ingest_payload(shape, preset, kind, env, loc, salt):
+    path, absf, base = env.target(loc)
+    files = [path] if path is not None else []
+    tpath = os.path.join(env.dir, "11111111-2222-3333-4444-555555555555.jsonl")
+    v1 = {"type": "ai_agent" if kind == "ai" else "human", "repo_working_dir": env.root}
+    if kind == "ai":
+        v1.update({"edited_filepaths": files, "transcript": {"messages": [{"type": "user", "text": "hi"}]},
+                   "agent_name": "toolx", "model": "m1", "conversation_id": "S1"})
+    else:
+        v1["will_edit_filepaths"] = files
+    if loc == "dirty_outside" and path:
+        v1["dirty_files"] = {path: "content supplied by the agent\n"}
+    claude = {"hook_event_name": "PostToolUse" if kind == "ai" else "PreToolUse", "transcript_path": tpath, "cwd": env.root,
+              "session_id": "s", "tool_name": "Edit", "tool_input": ({"file_path": path} if path else {})}
+    valid = v1 if preset == "agent-v1" else claude
+    if shape == "valid":
+        return json.dumps(valid)
+    if shape == "empty":
+        return ""
+    if shape == "notjson":
+        return "this is not json {"
+    if shape == "truncated":
+        s = json.dumps(valid)
+        return s[:max(1, len(s) * (3 + salt % 5) // 9)]
+    if shape == "null":
+        return "null"
+    if shape == "array":
+        return json.dumps([valid, 1, None])
+    if shape == "number":
+        return "1e999"
+    if shape == "string":
+        return json.dumps("edited_filepaths")
+    if shape == "wrongtypes":
+        bad = dict(valid)
+        for k in list(bad):
+            bad[k] = [None, 7, {"x": [1]}, True, [], 3.5][(salt + len(k)) % 6]
+        bad["type"] = valid.get("type", 5) if salt % 2 else 5
+        return json.dumps(bad)
+    if shape == "missing":
+        return "{}"
+    if shape == "huge":
+        big = dict(valid)
+        big["filler"] = "x" * (3 * 1024 * 1024)
+        big["edited_filepaths"] = ["f%d.txt" % i for i in range(20000)]
+        big["tool_input"] = {"file_path": "y" * 100000}
+        return json.dumps(big)
+    if shape == "deep":
+        return "[" * 6000 + "]" * 6000
+    if shape == "nul":
+        weird = dict(valid)
+        weird["cwd"] = "a\u0000b"
+        weird["repo_working_dir"] = "\udccc\u0000/\n"
+        weird["transcript_path"] = "\u0000"
+        return json.dumps(weird)
+    return ""
+
+
+def execute_ingest(args):
+    gitai, scratch, cfg, behaviour, run_id = args
+    info = {"run": run_id}
+    env = None
+    try:
+        c = behaviour[0]
+        salt = cfg.get("salt", 0)
+        env = IngestEnv(scratch, c["lay"])
+        path, absf, base = env.target(c["loc"])
+        if absf and c["shape"] == "valid" and c["loc"] != "binary":
+            with open(absf, "a") as fh:
+                fh.write("line written by the agent\n")
+        elif absf and c["loc"] == "binary":
+            with open(absf, "ab") as fh:
+                fh.write(b"\x00\x01more")
+        payload = ingest_payload(c["shape"], c["preset"], c["kind"], env, c["loc"], salt)
+        cmd = [gitai, "checkpoint", c["preset"]]
+        stdin = None
+        if c["shape"] == "noarg":
+            cmd += ["--hook-input"]
+        elif c["shape"] == "stdin_empty":
+            cmd += ["--hook-input", "stdin"]
+            stdin = b""
+        elif c["shape"] == "stdin_garbage":
+            cmd += ["--hook-input", "stdin"]
+            stdin = bytes(range(256)) * 8
+        elif c["shape"] == "binarybytes":
+            cmd += ["--hook-input", "stdin"]
+            stdin = b"\xff\xfe{\"type\": \"ai_agent\"" + b"\x80" * 50
+        elif len(payload) > 100000:
+            cmd += ["--hook-input", "stdin"]
+            stdin = payload.encode("utf-8", errors="surrogatepass") if False else payload.encode("utf-8", errors="replace")
+        else:
+            cmd += ["--hook-input", payload]
+        t0 = time.time()
+        try:
+            p = subprocess.run(cmd, cwd=env.root, env=env.env, input=stdin if stdin is not None else b"",
+                               stdout=subprocess.PIPE, stderr=subprocess.PIPE, timeout=60)
+            rc, timeout, err = p.returncode, False, p.stderr.decode(errors="replace")
+        except subprocess.TimeoutExpired:
+            rc, timeout, err = -1, True, ""
+        except ValueError as e:          # embedded NUL cannot be passed in argv: send it on stdin instead
+            cmd = cmd[:3] + ["--hook-input", "stdin"]
+            p = subprocess.run(cmd, cwd=env.root, env=env.env, input=payload.encode("utf-8", errors="replace"),
+                               stdout=subprocess.PIPE, stderr=subprocess.PIPE, timeout=60)
+            rc, timeout, err = p.returncode, False, p.stderr.decode(errors="replace")
+        roles, readable = env.recorded(base)
+        obs = {"exit": rc if rc >= 0 else 128 - rc, "timeout": timeout, "panic": "panicked at" in err or "RUST_BACKTRACE" in err,
+               "readable": readable, "recorded": roles}
+        info.update({"cmd": " ".join(cmd)[:300], "stderr": err[-400:], "secs": round(time.time() - t0, 2)})
+        events = [{"ev": "reset", "run": run_id},
+                  {"ev": "Hook", "preset": c["preset"], "shape": c["shape"], "lay": c["lay"], "loc": c["loc"], "kind": c["kind"],
+                   "obs": obs}]
+        return events, info, None
+    except Exception as e:
+        import traceback
+        return None, info, "%s\n%s" % (e, traceback.format_exc())
+    finally:
+        if env is not None:
+            env.cleanup()
+
+
+def ingest_tags(beh):
+    c = beh[0]
+    return frozenset(["%s|%s|%s|%s|%s" % (c["preset"], c["shape"], c["lay"], c["loc"], c["kind"])])
